@@ -167,20 +167,62 @@ func finderRule(c *core.Ctx, rel, name string, truncates bool) {
 	endOK := false
 	detail := "no strings.Index(s[start:], \" \") found"
 	if spaceCall != nil {
-		// the two result slices: s[start:] when the index is -1, s[start:start+idx] otherwise
+		// the values the function can return (through phis and the optional width cut) must be exactly
+		// s[start:] (no further space) and s[start:start+idx]
+		pp := prover.New(fn)
+		startLin := pp.LinOf(start)
 		var whole, upto bool
-		for _, b := range fn.Blocks {
-			for _, ins := range b.Instrs {
-				sl, ok := ins.(*ssa.Slice)
-				if !ok || sl.X != ssa.Value(s) || sl.Low != ssa.Value(start) || sl == spaceCall.Call.Args[0] {
-					continue
+		other := 0
+		seenV := map[ssa.Value]bool{}
+		var leaf func(v ssa.Value)
+		leaf = func(v ssa.Value) {
+			if v == nil || seenV[v] {
+				return
+			}
+			seenV[v] = true
+			switch x := v.(type) {
+			case *ssa.Phi:
+				for _, e := range x.Edges {
+					leaf(e)
 				}
-				if sl.High == nil {
+			case *ssa.Slice:
+				if x.X != ssa.Value(s) {
+					leaf(x.X) // the width cut value[:w]
+					return
+				}
+				lo := prover.Const(0)
+				if x.Low != nil {
+					lo = pp.LinOf(x.Low)
+				}
+				if d := lo.Add(startLin, -1); !d.IsConst() || d.C != 0 {
+					other++
+					return
+				}
+				if x.High == nil {
 					whole = true
-				} else if bo, ok := sl.High.(*ssa.BinOp); ok && bo.Op == token.ADD && ((bo.X == ssa.Value(start) && bo.Y == ssa.Value(spaceCall)) || (bo.Y == ssa.Value(start) && bo.X == ssa.Value(spaceCall))) {
+					return
+				}
+				d := pp.LinOf(x.High).Add(startLin, -1).Add(pp.LinOf(spaceCall), -1)
+				if d.IsConst() && d.C == 0 {
 					upto = true
+				} else {
+					other++
+				}
+			case *ssa.Const:
+				// "" on the not-found paths
+			default:
+				other++
+			}
+		}
+		for _, b := range fn.Blocks {
+			if ret, ok := b.Instrs[len(b.Instrs)-1].(*ssa.Return); ok {
+				for _, r := range ret.Results {
+					leaf(r)
 				}
 			}
+		}
+		if other > 0 {
+			whole = false
 		}
 		// the branch must test idx == -1 (or idx < 0 / idx >= 0)
 		tested := false
